@@ -725,3 +725,65 @@ PROPS["C16"] = {
     "rule": E2E_RULE + "; " + GW_RULE,
     "assumptions": E2E_ASSUME + GW_ASSUME,
 }
+
+
+# ------------------------------------------------------------------ directed search after a broken tie
+
+def escalate_with(kind, binary_name, cmp_cmd):
+    """Returns an escalation function for a history-driven unit: extend every diverging prefix with
+    late / repeated acknowledgements around the retry deadlines (driver ext-*), run the extended
+    histories on the implementation and through the same comparator + checkers, and return the
+    FAIL lines found."""
+    def fn(ctx, unit_result):
+        hist = unit_result.get("inputs")
+        d = os.path.dirname(hist)
+        res = [f for f in os.listdir(d) if f.endswith(".res")]
+        if not res:
+            return []
+        res = os.path.join(d, res[0])
+        xh, xt, xr = os.path.join(d, "ext.hist"), os.path.join(d, "ext.impl"), os.path.join(d, "ext.res")
+        rc, out, _ = core.run("%s ext-%s %s %s %s" % (core.DRIVER, kind, hist, res, xh))
+        if rc != 0 or not cached(xh):
+            return []
+        err = run_sharded(ctx.bin(binary_name), xh, xt, binary_name)
+        if err:
+            return []
+        rc, out, _ = core.run("%s %s %s %s > %s" % (core.DRIVER, cmp_cmd, xh, xt, xr))
+        if rc != 0:
+            return []
+        return [l for l in open(xr).read().splitlines() if l.startswith("FAIL ")]
+    return fn
+
+
+ESCALATE = {"drv_client": escalate_with("cl", "drv_client.test", "cmp-cl"),
+            "drv_gw": escalate_with("gw", "drv_gw.test", "cmp-gw")}
+
+
+def unit_conc(ctx):
+    """C18 on real concurrent schedules (real time, real goroutines): see harness/drv_conc."""
+    n = budget(ctx, 300, 5000)
+    rc, out, _ = core.run("%s -n %d" % (ctx.bin("drv_conc"), n), timeout=1200)
+    if rc != 0:
+        return {"lines": [], "error": "drv_conc failed: " + out[-2000:]}
+    lines = []
+    rounds = 0
+    for l in out.splitlines():
+        if not l.startswith("CONC "):
+            continue
+        kv = dict(x.split("=") for x in l.split()[2:])
+        rounds += int(kv["rounds"])
+        for k, clause in (("callback_after_done", "callback-after-done"), ("finally_not_once", "finally-not-once"),
+                          ("err_changed", "err-changed-after-done")):
+            if int(kv[k]) != 0:
+                lines.append("FAIL C18 %s-concurrent :: %s" % (clause, l))
+    lines.append("STAT evaluations=%d nontrivial=%d" % (rounds, rounds))
+    lines.append("SUMMARY conc rounds=%d failures=%d" % (rounds, len(lines) - 1))
+    lines.append("SAMPLE " + out.splitlines()[0] if out.splitlines() else "SAMPLE -")
+    return {"lines": lines, "inputs": "harness/drv_conc (real-time stress; schedules are not replayable, the counts are)"}
+
+
+PROPS["C18"]["drivers"].append("drv_conc")
+PROPS["C18"]["units"].append(Unit("drv_conc", unit_conc))
+PROPS["C18"]["rule"] += ("; real-time stress on real goroutines (zero retry delay, slow completion callback, 300 rounds per kind; "
+                         "thorough 5000): a retry callback observing Done closed, a completion callback not run exactly once or an "
+                         "Err changing after Done is a failure on the schedule that happened")
